@@ -113,6 +113,42 @@ func c37(c *engine.Ctx) {
 			}
 		})
 		issues, _ := bd.CheckFunc(f)
+		// lines moved out of an exempt function into an unexported helper that only
+		// exempt functions call stand under the same caller-side invariant: the
+		// helper inherits the exemption (an unproven index added to such a helper
+		// could as well have been added to the exempt function itself)
+		inherited := false
+		if _, listed := c37Exempt[engine.FuncID(f)]; !listed && len(issues) > 0 && f.Object() != nil && !f.Object().Exported() && f.Signature.Recv() == nil {
+			callers, allExempt := 0, true
+			for _, g := range order {
+				for _, call := range engine.Calls(g) {
+					if call.Common().StaticCallee() != f {
+						continue
+					}
+					callers++
+					root := g
+					for root.Parent() != nil {
+						root = root.Parent()
+					}
+					if r, ok := c37Exempt[engine.FuncID(root)]; !ok || r == "" {
+						allExempt = false
+					}
+				}
+			}
+			onlyCalled := true
+			if refs := f.Referrers(); refs != nil {
+				for _, r := range *refs {
+					if ci, isCall := r.(ssa.CallInstruction); !isCall || ci.Common().StaticCallee() != f {
+						onlyCalled = false
+					}
+				}
+			}
+			inherited = callers > 0 && allExempt && onlyCalled
+		}
+		if inherited {
+			exemptUsed++
+			issues = nil
+		}
 		if reason, ok := c37Exempt[engine.FuncID(f)]; ok && reason != "" {
 			if len(issues) > 0 {
 				exemptUsed++
